@@ -178,8 +178,10 @@ func evalC05(c *Ctx, cs *Case) {
 		for si, st := range steps {
 			if st.add {
 				// a new last child under the root and under the root's former last child
-				g.Add("zz_new").Add("zz_kid") // a new node that is itself a parent
-				cur.Kids = append(cur.Kids, &model.Node{Name: "zz_new", Kids: []*model.Node{{Name: "zz_kid"}}})
+				// a chain of new nodes that are themselves parents (after the earlier calls the library's
+				// internal node numbering restarts, so these collide with older nodes' numbers)
+				g.Add("zz_new").Add("zz_kid").Add("zz_kid2").Add("zz_kid3")
+				cur.Kids = append(cur.Kids, &model.Node{Name: "zz_new", Kids: []*model.Node{{Name: "zz_kid", Kids: []*model.Node{{Name: "zz_kid2", Kids: []*model.Node{{Name: "zz_kid3"}}}}}}})
 				if len(cur.Kids) > 1 {
 					g.Add(cur.Kids[len(cur.Kids)-2].Name).Add("zz_deep")
 					k := cur.Kids[len(cur.Kids)-2]
